@@ -18,6 +18,7 @@ From Coq Require Import ZArith List Bool.
 Import ListNotations.
 From Mds Require Import Slice.EditModel.
 From Mds Require Import Mdiff.MdiffModel Mdiff.MdiffSpec Mdiff.MdiffProofs Mdiff.MdiffProofsRefuted Mdiff.MdiffCompose.
+From Mds Require Import Mdiff.MdiffHistModel Mdiff.FormatSpec Mdiff.MdiffPatchOk Mdiff.MdiffHistory.
 Local Open Scope Z_scope.
 
 (* After New: every chunk is right; the chunks are ascending, disjoint, not adjacent; substituting
@@ -107,6 +108,155 @@ Theorem C13_composed : forall (T : Type) (eqb : T -> T -> bool),
       Left d2 = lhs /\ Right d2 = rhs.
 Proof. exact composed_correct. Qed.
 Print Assumptions C13_composed.
+
+(* ---------------------------------------------------------------- every history of calls
+   Nothing forces a caller to follow New -> AddContext -> Unify: AddContext may be called twice,
+   after Unify, with n <= 0, Unify without AddContext or twice.  Mdiff/MdiffHistModel.v:
+     hop = HAdd n | HUnify,   run_ops eqb L R cs ops = d.Chunks after the calls ops (Ok = no panic).
+   The next theorems hold for EVERY list of calls ops, every n in Z (no sign or size restriction:
+   n enters the code only through n <= 0 and min(n, .), see C13_n_only_through_min).
+     has_change c      c contains an edit that is not context
+     patch_ok L R cs   (Mdiff/FormatSpec.v, the hypothesis of the C14 application theorems) the
+                       chunks sit at exactly their ranges, ascending and disjoint, equal gaps. *)
+
+(* After any history: no panic; every chunk consumes/produces exactly its ranges; the non-context
+   edits are still exactly New's, in order; every chunk has one; and whenever the chunks do not
+   overlap they are a patch and substituting them turns Left into Right. *)
+Theorem C13_history : forall (T : Type) (eqb : T -> T -> bool),
+    (forall a, eqb a a = true) ->
+    forall (L R : list T) (es : list (edit T)) (ops : list hop),
+    script_ok L R es ->
+    exists cs,
+      run_ops eqb L R (new_chunks es) ops = Ok cs /\
+      Forall (chunk_ok L R) cs /\
+      changes (flat_map edits cs) = flat_map edits (new_chunks es) /\
+      Forall has_change cs /\
+      (separated 0 cs -> patch_ok L R cs /\ apply_chunks L cs = R).
+Proof. exact history_correct. Qed.
+Print Assumptions C13_history.
+
+(* After any history that ends with Unify: moreover ascending, disjoint, not adjacent; a patch;
+   substituting gives Right; and that last Unify changed nothing if the chunks were already
+   ascending, disjoint and not adjacent. *)
+Theorem C13_history_unify : forall (T : Type) (eqb : T -> T -> bool),
+    (forall a, eqb a a = true) ->
+    forall (L R : list T) (es : list (edit T)) (ops : list hop),
+    script_ok L R es ->
+    exists cs cu,
+      run_ops eqb L R (new_chunks es) ops = Ok cs /\
+      run_ops eqb L R (new_chunks es) (ops ++ [HUnify]) = Ok cu /\
+      Forall (chunk_ok L R) cu /\ separated 1 cu /\ apply_chunks L cu = R /\ patch_ok L R cu /\
+      changes (flat_map edits cu) = flat_map edits (new_chunks es) /\
+      Forall has_change cu /\
+      (separated 1 cs -> cu = cs).
+Proof. exact history_unify_correct. Qed.
+Print Assumptions C13_history_unify.
+
+(* Any history followed by AddContext n (any n): chunk i afterwards is chunk i before plus at most
+   max(n, 0) context lines before and after (one Emit edit each, ranges extended by exactly those
+   lines), nothing else changed. *)
+Theorem C13_history_add_context : forall (T : Type) (eqb : T -> T -> bool),
+    (forall a, eqb a a = true) ->
+    forall (L R : list T) (es : list (edit T)) (ops : list hop) (n : Z),
+    script_ok L R es ->
+    exists cs ca,
+      run_ops eqb L R (new_chunks es) ops = Ok cs /\
+      run_ops eqb L R (new_chunks es) (ops ++ [HAdd n]) = Ok ca /\
+      Forall2 (ctx_of (Z.max 0 n)) cs ca.
+Proof. exact history_add_correct. Qed.
+Print Assumptions C13_history_add_context.
+
+(* Unify directly after New is a no-op (doc comment of Unify). *)
+Theorem C13_unify_after_new : forall (T : Type) (L R : list T) (es : list (edit T)),
+    script_ok L R es -> unify_chunks (new_chunks es) = Ok (new_chunks es).
+Proof. exact unify_after_new_noop. Qed.
+Print Assumptions C13_unify_after_new.
+
+(* From the inputs alone (C11 model of slice.EditScript plugged in), on the Diff value: any
+   history of calls on New(lhs, rhs) does not panic, keeps Edits/Left/Right, and the chunks satisfy
+   all of the above; after New itself and after a history ending with Unify they are ascending,
+   disjoint, not adjacent, a patch, and apply. *)
+Theorem C13_history_composed : forall (T : Type) (eqb : T -> T -> bool),
+    (forall a b, eqb a b = true <-> a = b) ->
+    forall (lhs rhs : list T) (ops : list hop),
+    let d0 := mdiff_new T eqb lhs rhs in
+    edit_script_run eqb lhs rhs = EOk (Edits d0) /\
+    exists d,
+      diff_run eqb d0 ops = Ok d /\
+      Edits d = Edits d0 /\ Left d = lhs /\ Right d = rhs /\
+      Forall (chunk_ok lhs rhs) (Chunks d) /\
+      changes (flat_map edits (Chunks d)) = changes (Edits d0) /\
+      Forall has_change (Chunks d) /\
+      (separated 0 (Chunks d) -> patch_ok lhs rhs (Chunks d) /\ apply_chunks lhs (Chunks d) = rhs) /\
+      ((ops = [] \/ exists ops', ops = ops' ++ [HUnify]) ->
+       separated 1 (Chunks d) /\ patch_ok lhs rhs (Chunks d) /\ apply_chunks lhs (Chunks d) = rhs).
+Proof. exact history_composed. Qed.
+Print Assumptions C13_history_composed.
+
+(* The interface C14 composes with: the chunks of New, of AddContext n (when they do not overlap;
+   overlapping chunks are not a patch) and of AddContext n + Unify are patches, for every n. *)
+Theorem C13_pipeline_patch_ok : forall (T : Type) (eqb : T -> T -> bool),
+    (forall a b, eqb a b = true <-> a = b) ->
+    forall (lhs rhs : list T) (n : Z),
+    let d0 := mdiff_new T eqb lhs rhs in
+    exists d1 d2,
+      diff_add_context eqb n d0 = Ok d1 /\ diff_unify d1 = Ok d2 /\
+      patch_ok lhs rhs (Chunks d0) /\ Forall has_change (Chunks d0) /\
+      (separated 0 (Chunks d1) -> patch_ok lhs rhs (Chunks d1)) /\ Forall has_change (Chunks d1) /\
+      patch_ok lhs rhs (Chunks d2) /\ Forall has_change (Chunks d2).
+Proof. exact composed_patch_ok. Qed.
+Print Assumptions C13_pipeline_patch_ok.
+
+(* Machine integers: the caller's n is never negated, added to or multiplied; it enters the
+   generated arithmetic only through the test n <= 0 and through min(n, gap) (both gaps are
+   differences of line numbers), and the loop counts are those minima.  So the unbounded-Z model is
+   faithful for every int n, including MinInt64 and MaxInt64. *)
+Theorem C13_n_only_through_min : forall n a b nchunks,
+    Gen.MdiffIdx.ac_skip n nchunks = ((n <=? 0) || (nchunks =? 0))%bool /\
+    Gen.MdiffIdx.ac_npre n a b = Z.min n (a - b) /\ Gen.MdiffIdx.ac_npost n a b = Z.min n (a - b) /\
+    Gen.MdiffIdx.fc_pre_count a b = a /\ Gen.MdiffIdx.fc_post_count a b = b.
+Proof. intros. repeat split. Qed.
+Print Assumptions C13_n_only_through_min.
+
+(* Example for the history theorems: Left=[1 9 9 9 2] Right=[3 9 9 9 4] (a gap of 3 lines between
+   two chunks), calls AddContext(1), AddContext(1), Unify: the second call's contexts overlap in
+   the middle line, Unify removes the whole latest post-context and fuses with the earlier layer;
+   one chunk [3 lines of context between the two Replace edits] results.  Also n = 2^63-1. *)
+Definition h_left : list nat := [1; 9; 9; 9; 2]%nat.
+Definition h_right : list nat := [3; 9; 9; 9; 4]%nat.
+Definition h_script : list (edit nat) :=
+  [mkEdit Replace [1%nat] [3%nat]; mkEdit Emit [9; 9; 9]%nat []; mkEdit Replace [2%nat] [4%nat]].
+Example C13_history_example :
+  script_ok h_left h_right h_script /\ length (new_chunks h_script) = 2%nat /\
+  exists ca cu, run_ops Nat.eqb h_left h_right (new_chunks h_script) [HAdd 1; HAdd 1] = Ok ca /\
+                separatedb 0 ca = false /\
+                run_ops Nat.eqb h_left h_right (new_chunks h_script) [HAdd 1; HAdd 1; HUnify] = Ok cu /\
+                length cu = 1%nat /\ applies Nat.eqb h_left h_right cu = true.
+Proof.
+  split; [left; split; reflexivity|]. split; [reflexivity|].
+  eexists. eexists. split; [vm_compute; reflexivity|]. split; [reflexivity|].
+  split; [vm_compute; reflexivity|]. split; reflexivity.
+Qed.
+Example C13_history_unify_example :
+  exists cu, run_ops Nat.eqb h_left h_right (new_chunks h_script) ([HAdd 1; HUnify; HAdd 9223372036854775807] ++ [HUnify]) = Ok cu /\
+             length cu = 1%nat.
+Proof. eexists. split; [vm_compute; reflexivity|reflexivity]. Qed.
+Example C13_history_add_context_example :
+  exists ca, run_ops Nat.eqb h_left h_right (new_chunks h_script) ([HUnify; HAdd 1] ++ [HAdd (-3)]) = Ok ca /\
+             length ca = 2%nat.
+Proof. eexists. split; [vm_compute; reflexivity|reflexivity]. Qed.
+Example C13_unify_after_new_example : script_ok h_left h_right h_script /\ length (new_chunks h_script) = 2%nat.
+Proof. split; [left; split; reflexivity|reflexivity]. Qed.
+Example C13_history_composed_example :
+  (forall a b, Nat.eqb a b = true <-> a = b) /\
+  exists d, diff_run Nat.eqb (mdiff_new nat Nat.eqb h_left h_right) [HAdd 2; HAdd 2; HUnify] = Ok d /\
+            length (Chunks d) = 1%nat.
+Proof. split; [exact PeanoNat.Nat.eqb_eq|]. eexists. split; [vm_compute; reflexivity|reflexivity]. Qed.
+Example C13_pipeline_patch_ok_example :
+  (forall a b, Nat.eqb a b = true <-> a = b) /\ length (Chunks (mdiff_new nat Nat.eqb h_left h_right)) = 2%nat.
+Proof. split; [exact PeanoNat.Nat.eqb_eq|vm_compute; reflexivity]. Qed.
+Example C13_n_only_through_min_example : Gen.MdiffIdx.ac_npre 9223372036854775807 7 3 = 4.
+Proof. reflexivity. Qed.
 
 (* The hypotheses are satisfiable by a non-trivial input: Left=[a a b] Right=[a b b] with the
    script slice.EditScript returns for it; two chunks after New, merged by Unify at n = 2. *)
